@@ -302,7 +302,7 @@ FINDINGS.append(
         trigger="string_with_line_separator",
         what="the finished text is re-split with str.splitlines() (remove_unused_labels, remove_labels, version note): a device name or HASH/STR string containing a form feed, U+2028, U+0085 ... is cut into two lines, so HASH(\"a<FF>b\") becomes 'HASH(\"a' + newline + 'b\")' - other text, other hash, unloadable line",
         signatures=dict(C08=[dict(monitor="compact-differential")], C09=[dict(monitor="loader")]),
-        witness=dict(C08=dict(src=H + "db.Setting = HASH(\"a\x0cb\")\ndb.Mode = 1\n", options=dict(append_version=False), stream="witness")),
+        witness=dict(C08=dict(src=H + "db.Setting = HASH(\"a long device name\x0cwith a form feed\")\ndb.Mode = 1\n", options=dict(append_version=False), stream="witness")),
     )
 )
 
